@@ -56,26 +56,33 @@ def check_tangent(case, ctx):
     ctx.nontrivial = bool(case['wamp'] >= 0.5)
     ctx.label('model:' + model, 'cone' if cone else 'cylinder', 'rule:' + case['method'], 'cores:%d' % case['cores'],
               'imperfect' if imperfect else 'perfect')
+    inc = case.get('inc', 1.)
+    prescribed = bool(case.get('pdC') and case.get('uTM')) or bool(case.get('thetaTdeg'))
+    ctx.label('inc=1' if inc == 1. else 'inc<1', 'prescribed-displacement' if prescribed else 'no-prescribed-displacement')
     c_before = c.copy()
     with package(name + '.fint'):
-        f = np.asarray(cc.calc_fint(c, silent=True), dtype=float).copy()
+        f = np.asarray(cc.calc_fint(c, inc=inc, silent=True), dtype=float).copy()
     with package(name + '.kT'):
-        KT = dense(cc.calc_kT(c, silent=True))
+        KT = dense(cc.calc_kT(c, inc=inc, silent=True))
     ctx.ok(np.array_equal(c, c_before), name + '.input-mutated', 'state vector was modified')
     ctx.ok(KT.shape == (nu, nu) and f.shape == (nu,), name + '.shape', 'kT %r fint %r for %d free amplitudes' % (KT.shape, f.shape, nu))
     NLpart = KT - K0uu
     nls = np.max(np.abs(NLpart))
     ctx.close('kT.symmetry', KT, KT.T, 1e-9, bucket=name + '.kT.symmetry', scale=max(nls, 1e-12 * np.max(np.abs(K0uu))))
+    # rounding level of fint: it contains k0 * (full amplitude vector) with edge penalties of 1e8
+    ck = np.array([inc * v for v in getattr(cc, 'excluded_dofs_ck', [])], dtype=float)
+    k0uk = np.abs(np.asarray(cc.k0uk))
+    pres_floor = float(np.max(k0uk[:, sorted(cc.excluded_dofs)].dot(np.abs(ck)))) if ck.size == len(exc) and ck.size else 0.
     # undeformed perfect shell
-    if not imperfect:
+    if not imperfect and not prescribed:
         with package(name + '.fint'):
-            f0 = np.asarray(cc.calc_fint(np.zeros(nu), silent=True), dtype=float)
+            f0 = np.asarray(cc.calc_fint(np.zeros(nu), inc=inc, silent=True), dtype=float)
         fsc = np.max(np.abs(np.abs(K0uu).dot(np.abs(c)))) or 1.
         ctx.close('fint(0)', f0, np.zeros(nu), 0., bucket=name + '.fint(0)', atol=1e-12 * fsc)
         # vanishing amplitudes: fint -> k0 c
         e = 1e-4
         with package(name + '.fint'):
-            fe = np.asarray(cc.calc_fint(e * c, silent=True), dtype=float)
+            fe = np.asarray(cc.calc_fint(e * c, inc=inc, silent=True), dtype=float)
         lin = K0uu.dot(e * c)
         ctx.ok(np.max(np.abs(fe - lin)) <= 1e-3 * e * max(1., case['wamp']) ** 2 * (np.max(np.abs(np.abs(K0uu).dot(np.abs(c))))) + 1e-12 * fsc,
                name + '.small-state', 'fint(eps c) - k0 eps c = %.3e (linear part %.3e)' % (np.max(np.abs(fe - lin)), np.max(np.abs(lin))))
@@ -83,32 +90,43 @@ def check_tangent(case, ctx):
     for nc in case['other_cores']:
         cc.ni_num_cores = nc
         with package(name + '.threads'):
-            f2 = np.asarray(cc.calc_fint(c, silent=True), dtype=float)
-            K2 = dense(cc.calc_kT(c, silent=True))
+            f2 = np.asarray(cc.calc_fint(c, inc=inc, silent=True), dtype=float)
+            K2 = dense(cc.calc_kT(c, inc=inc, silent=True))
         ctx.close('threads.fint', f2, f, 1e-12, bucket=name + '.threads', scale=np.max(np.abs(f)) or 1.)
         ctx.close('threads.kT', K2, KT, 1e-12, bucket=name + '.threads', scale=np.max(np.abs(KT)))
     cc.ni_num_cores = case['cores']
-    # tangent == Jacobian of fint (Richardson central differences)
-    dirs = [rs.uniform(-1, 1, nu) * scu for _ in range(3)]
-    for k in case['coords']:
-        e_ = np.zeros(nu)
-        e_[k % nu] = scu[k % nu] or h
-        dirs.append(e_)
+    # tangent == Jacobian of fint (Richardson central differences), at the drawn state and - when the shell is imperfect or carries a
+    # prescribed edge displacement, i.e. when that state is not trivial - also at the state with all free amplitudes zero
+    states = [('state', c, KT)]
+    if imperfect or prescribed:
+        z = np.zeros(nu)
+        with package(name + '.kT'):
+            KTz = dense(cc.calc_kT(z, inc=inc, silent=True))
+        ctx.ok(KTz.shape == (nu, nu), name + '.shape', 'kT(0) %r for %d free amplitudes' % (KTz.shape, nu))
+        states.append(('zero-state', z, KTz))
+        ctx.label('zero-state-checked')
     worst = 0.
-    for dv in dirs:
-        D = []
-        for s in (0.5, 0.25):
-            with package(name + '.fint'):
-                fp = np.asarray(cc.calc_fint(c + s * dv, silent=True), dtype=float)
-                fm = np.asarray(cc.calc_fint(c - s * dv, silent=True), dtype=float)
-            D.append((fp - fm) / (2 * s))
-        J = (4 * D[1] - D[0]) / 3.
-        # fint contains k0*c with edge penalties of 1e8: its rounding (eps*|k0||c|/step) limits what a difference quotient can resolve
-        ref = max(np.max(np.abs(np.abs(NLpart).dot(np.abs(dv)))),
-                  1e-7 * np.max(np.abs(np.abs(K0uu).dot(np.abs(c) + np.abs(dv)))))
-        err = np.max(np.abs(KT.dot(dv) - J)) / ref
-        worst = max(worst, err)
-        ctx.subchecks += 1
+    for sname, c_, KT_ in states:
+        NL_ = KT_ - K0uu
+        dirs = [rs.uniform(-1, 1, nu) * scu for _ in range(3 if sname == 'state' else 2)]
+        for k in case['coords']:
+            e_ = np.zeros(nu)
+            e_[k % nu] = scu[k % nu] or h
+            dirs.append(e_)
+        for dv in dirs:
+            D = []
+            for s in (0.5, 0.25):
+                with package(name + '.fint'):
+                    fp = np.asarray(cc.calc_fint(c_ + s * dv, inc=inc, silent=True), dtype=float)
+                    fm = np.asarray(cc.calc_fint(c_ - s * dv, inc=inc, silent=True), dtype=float)
+                D.append((fp - fm) / (2 * s))
+            J = (4 * D[1] - D[0]) / 3.
+            # rounding of fint (eps*|k0||c|/step) limits what a difference quotient can resolve
+            ref = max(np.max(np.abs(np.abs(NL_).dot(np.abs(dv)))),
+                      1e-7 * (np.max(np.abs(np.abs(K0uu).dot(np.abs(c_) + np.abs(dv)))) + pres_floor))
+            err = np.max(np.abs(KT_.dot(dv) - J)) / ref
+            worst = max(worst, err)
+            ctx.subchecks += 1
     ctx.metric('kT-vs-fd(rel. to NL part)[%s]' % model, worst)
     if worst > 1e-6:
         msg = 'kT.dc differs from the finite-difference Jacobian of calc_fint by %.3e of the non-linear part' % worst
@@ -148,7 +166,12 @@ def _strategy(draw, tier='quick'):
         case['m0'], case['n0'], case['funcnum'] = m0, n0, 2
         case['c0'] = [round(draw(gen.fl(-0.3, 0.3)), 3) * h for _ in range(2 * m0 * n0)]
     case['Fc'] = round(draw(gen.fl(0., 1e3)), 1)
-    case['pdC'] = False
+    # load level and prescribed edge displacements (axial shortening uTM with pdC, rotation thetaTdeg with the default pdT)
+    case['inc'] = draw(st.sampled_from([1., 1., 0.5, 0.13]))
+    case['pdC'] = draw(st.booleans())
+    hh = case['h'] if 'iso_' in case['model'] else case['plyt'] * len(case['stack'])
+    case['uTM'] = round(draw(gen.fl(-1., 1.)), 3) * hh if case['pdC'] else 0.
+    case['thetaTdeg'] = draw(st.sampled_from([0., 0., 0.01, -0.03]))
     return case
 
 
